@@ -59,11 +59,11 @@ func newGCWorld(r *Rng, cov *Cov) *gcWorld {
 	reg := map[string]func() ecs.ID{
 		"P1": func() ecs.ID { return ecs.ComponentID[P1](&w) }, "P2": func() ecs.ID { return ecs.ComponentID[P2](&w) },
 		"P3": func() ecs.ID { return ecs.ComponentID[P3](&w) }, "P4": func() ecs.ID { return ecs.ComponentID[P4](&w) },
-		"P5": func() ecs.ID { return ecs.ComponentID[P5](&w) }, "V1": func() ecs.ID { return ecs.ComponentID[V1](&w) },
+		"P5": func() ecs.ID { return ecs.ComponentID[P5](&w) }, "P6": func() ecs.ID { return ecs.ComponentID[P6](&w) }, "V1": func() ecs.ID { return ecs.ComponentID[V1](&w) },
 		"V2": func() ecs.ID { return ecs.ComponentID[V2](&w) }, "V3": func() ecs.ID { return ecs.ComponentID[V3](&w) },
 		"Rel": func() ecs.ID { return ecs.ComponentID[RelA](&w) },
 	}
-	order := []string{"P1", "P2", "P3", "P4", "P5", "V1", "V2", "V3", "Rel"}
+	order := []string{"P1", "P2", "P3", "P4", "P5", "P6", "V1", "V2", "V3", "Rel"}
 	Shuffle(r, order)
 	for _, k := range order {
 		g.ids[k] = reg[k]()
@@ -72,7 +72,7 @@ func newGCWorld(r *Rng, cov *Cov) *gcWorld {
 		}
 	}
 	g.rel = g.ids["Rel"]
-	g.pids = []string{"P1", "P2", "P3", "P4", "P5"}
+	g.pids = []string{"P1", "P2", "P3", "P4", "P5", "P6"}
 	return g
 }
 
@@ -104,6 +104,10 @@ func (g *gcWorld) mkValue(name string) (any, []uint64) {
 	case "P4":
 		a := g.newID()
 		return &P4{Name: fmt.Sprintf("canary-%016d", a), P: newObj(a)}, []uint64{a}
+	case "P6":
+		a := g.newID()
+		o := P6(newObj(a))
+		return &o, []uint64{a}
 	default:
 		a := g.newID()
 		return &P5{I: newObj(a)}, []uint64{a}
@@ -123,6 +127,8 @@ func store(name string, p unsafe.Pointer, v any) {
 		*(*P4)(p) = *v.(*P4)
 	case "P5":
 		*(*P5)(p) = *v.(*P5)
+	case "P6":
+		*(*P6)(p) = *v.(*P6)
 	}
 }
 
@@ -139,6 +145,8 @@ func typedPtr(name string, p unsafe.Pointer) any {
 		return (*P4)(p)
 	case "P5":
 		return (*P5)(p)
+	case "P6":
+		return (*P6)(p)
 	case "V1":
 		return (*V1)(p)
 	case "V2":
@@ -189,6 +197,10 @@ func (g *gcWorld) verify(e ecs.Entity, name string, p unsafe.Pointer, want []uin
 		o, ok := (*P5)(p).I.(*Obj)
 		if !ok || !o.ok(want[0]) {
 			return bad("object referenced through interface damaged")
+		}
+	case "P6":
+		if o := *(*P6)(p); !o.ok(want[0]) {
+			return bad("object referenced by a pointer-typed component damaged")
 		}
 	}
 	g.cov.N["canary_checks"] += len(want)
